@@ -1065,7 +1065,7 @@ pub fn run(env: &Env) -> i32 {
         };
     }
     replay_saved(env, &mut rep, &exec);
-    let n = env.cases(6000, 200000);
+    let n = env.cases(40000, 400000);
     let r = run_cases(
         env,
         1,
